@@ -10,6 +10,16 @@ COMMON_NOTE = ("Trusted base: TLC 1.8 evaluating the TLA+ specification in /veri
                "assumption of DESIGN 2.5 for the exhaustive part; simulated / random traces go beyond it.")
 
 CHECKS = {
+ "C15": dict(engine="Symmetry", design="3/C15",
+   text=("Symmetry.tla defines the symmetrised tensor (scaled by prod |g|! to stay integral) as the sum over all "
+         "permutations of the modes inside each group and the symmetry test as invariance under all of them; TLC "
+         "checks the laws (result symmetric, idempotent, fixes symmetric tensors, number of group permutations = "
+         "scale, sum preserved) on every generated case and enumerates 17 (shape, groups) configurations - full "
+         "group, proper and non-adjacent sub-groups, two disjoint groups - x labelled / symmetric / zero / sign-mixed "
+         "/ every unit tensor x both algorithm versions x details on/off x float and integer dtype; results of the "
+         "real tensor.symmetrize / issymmetric (and ktensor.symmetrize as an observation contract) are validated by "
+         "TLC against Symmetry_Trace."),
+   technique="TLA+ spec Symmetry (scaled integer averages); TLC law checking + exhaustive generation; replay; TLC trace validation"),
  "C20": dict(engine="Generators", design="3/C20",
    text=("Generators.tla specifies the deterministic generators by value (ones, zeros, super-diagonal with the "
          "max(len, size) shape rule, aggregation of duplicate subscripts with sum / max / min / counting reducers and "
